@@ -24,6 +24,15 @@ ZONES_NO_DST = ["UTC", "Asia/Kolkata", "Asia/Tokyo", "America/Phoenix", "Africa/
                 "Asia/Kathmandu", "Pacific/Honolulu", "Asia/Dubai", "Etc/GMT+5"]
 
 
+def daily_index(tz, start, n):
+    """n local calendar days from `start`; a local midnight that does not exist (DST at midnight) is shifted forward"""
+    try:
+        return pd.date_range(start, periods=n, freq="D", tz=tz)
+    except Exception:          # a local midnight inside the range does not exist / is ambiguous
+        naive = pd.date_range(pd.Timestamp(start), periods=n, freq="D")
+        return naive.tz_localize(tz, nonexistent="shift_forward", ambiguous=np.ones(n, dtype=bool))
+
+
 def daily_weather(rng, idx, mean=None, amp=None, noise=None, south=None):
     n = len(idx)
     mean = rng.uniform(45, 65) if mean is None else mean
@@ -67,7 +76,7 @@ def daily_usage(rng, T, idx, kind="both", base=None, hb=None, hs=None, cb=None, 
 
 def synth_daily(tz="America/Chicago", start="2018-01-01", n=365, seed=0, kind="both", **kw):
     rng = np.random.default_rng(seed) if not isinstance(seed, np.random.Generator) else seed
-    idx = pd.date_range(start, periods=n, freq="D", tz=tz)
+    idx = daily_index(tz, start, n)
     T = daily_weather(rng, idx, **{k: kw.pop(k) for k in ("mean", "amp", "south") if k in kw},
                       noise=kw.pop("wnoise", None))
     y, params = daily_usage(rng, T, idx, kind=kind, **kw)
@@ -104,7 +113,7 @@ def billing_reads(rng, tz="America/Chicago", start="2018-01-01", n_periods=13, c
     """Monthly-ish reads: returns (daily temperature frame, billing frame with 'observed' at period starts)."""
     steps = rng.integers(cycle[0], cycle[1] + 1, n_periods)
     days = int(steps.sum())
-    didx = pd.date_range(start, periods=days + 1, freq="D", tz=tz)
+    didx = daily_index(tz, start, days + 1)
     T = daily_weather(rng, didx)
     yd, params = daily_usage(rng, T, didx, kind=kind, noise=noise)
     starts = np.concatenate([[0], np.cumsum(steps)])
